@@ -47,6 +47,9 @@ func (g *gen) engValue(mem int) []byte {
 }
 
 func (g *gen) engKey() []byte {
+	if g.chance(1, 60) {
+		return []byte{} // the empty key is a legal key
+	}
 	k := g.key()
 	if len(k) == 0 {
 		return []byte("e")
